@@ -6,9 +6,9 @@ B=${1:-12}
 args=""; for f in selftest/mutants/*.patch; do args="$args $f $(basename $f | cut -d. -f1)"; done
 for d in seeded/*/; do p=$(python3 -c "import json;print(json.load(open('$d/meta.json'))['property'])"); args="$args $d/patch.diff $p"; done
 ./selftest/sensitivity.sh -b $B $args
-na=""; for f in selftest/refactors/R1-*.patch selftest/refactors/R2-*.patch selftest/refactors/S1-*.patch selftest/refactors/S2-*.patch; do [ -f $f ] || continue; for p in C13 C14 C15 C16; do na="$na $f $p"; done; done
+na=""; for f in selftest/refactors/R1-*.patch selftest/refactors/R2-*.patch selftest/refactors/S1-*.patch selftest/refactors/S2-*.patch selftest/refactors/T1-*.patch; do [ -f $f ] || continue; for p in C13 C14 C15 C16; do na="$na $f $p"; done; done
 ./selftest/noalarm.sh -b 8 $na
 n3=""; for f in selftest/refactors/R3-*.patch; do n3="$n3 $f C20"; done
 BASE_REV=3e9d072 ./selftest/noalarm.sh -b 8 $n3
-n4=""; for f in selftest/refactors/S3-*.patch; do n4="$n4 $f C20"; done
+n4=""; for f in selftest/refactors/S3-*.patch selftest/refactors/T2-*.patch; do n4="$n4 $f C20"; done
 ./selftest/noalarm.sh -b 8 $n4
